@@ -113,6 +113,34 @@ func init() {
 		},
 	})
 	register(&Stream{
+		Name: "iface-probe",
+		Rule: "required and size rules on one (rule, value) pair carried by map[string]interface{} / map[string]T / Var / Struct: the verdict is judged against the spec " +
+			"(required: violated iff the value is empty). non-trivial: the call returned an error; distinct by request",
+		Size: map[string]int{"quick": 6000, "thorough": 100000},
+		Gen: func(r *rand.Rand, tier string) Case {
+			for {
+				var v interface{}
+				switch r.IntN(4) {
+				case 0:
+					v = ""
+				case 1:
+					v = scalarNear(r, pick(r, scalarKinds), 0)
+				default:
+					v = scalarNear(r, pick(r, scalarKinds), int64(r.IntN(6)))
+				}
+				rule := "required" + randMsg(r)
+				if chance(r, 0.4) {
+					rule = sizeRuleNear(r, measureOf(v))
+				}
+				carrier := pick(r, []int{carMapIface, carMapIface, carMap, carVar, carStruct, carSliceMap})
+				k := reflect.TypeOf(v).Kind().String()
+				if cs, ok := carrierCase(r, carrier, v, []string{rule}, []string{"kind:" + k}, rule); ok {
+					return cs
+				}
+			}
+		},
+	})
+	register(&Stream{
 		Name: "size-exh",
 		Rule: "EXHAUSTIVE window: all 256 int8 and all 256 uint8 values x {ge,le,gt,lt,eq,noeq} x every bound in [-130,260] and x {to,oto} x " +
 			"{v-1,v,v+1,-1,0,1,127,128,255,256}^2 ∪ [-3,3]^2 (min>max included), through Var; every tenth case through Struct/Map carriers. " +
